@@ -162,6 +162,7 @@ pub fn parse_leaf(t: &mut Toks) -> PResult<LeafX> {
         "i32" => LeafX::I32(t.i64()?),
         "i64" => LeafX::I64(t.i64()?),
         "oct" => LeafX::Oct(t.bytes()?),
+        "octz" => LeafX::Oct(vec![0u8; t.u64()? as usize]),
         "time" => LeafX::Time(t.i64()?),
         "u32" => LeafX::U32(t.u64()?),
         "u64" => LeafX::U64(t.u64()?),
